@@ -41,6 +41,8 @@ def gen_input(rnd, kind, max_n=4, idx=0):
         inp['m'] = 1
         inp['sort'] = False
         inp['compressed'] = kind != 'p2pkh_u' and (kind != 'p2pk' or rnd.random() < 0.5)
+    if rnd.random() < 0.2:
+        inp['with_locking_script'] = True
     return inp
 
 
@@ -200,6 +202,9 @@ def build(spec, private_in_inputs=True):
         if inp['kind'] in MS_KINDS:
             kw['sigs_required'] = inp['m']
             kw['sort'] = inp['sort']
+        if inp.get('with_locking_script'):
+            # the documented optional argument: the caller passes the scriptPubKey of the output being spent
+            kw['locking_script'] = prevout_of(inp)['spk']
         t.add_input(inp['txid'], inp['n'], keys=keys, sequence=inp['seq'], value=inp['value'],
                     compressed=inp['compressed'], **kw)
     for o in spec['outs']:
